@@ -49,6 +49,10 @@ type Block struct {
 	Swallow bool     `json:"swallow,omitempty"`
 	Kids    []*Block `json:"kids,omitempty"`
 	Act     int      `json:"act,omitempty"`
+	// From: the handle this (nested) block is opened from: 0 = the tx its
+	// parent's callback received, k = the tx of the ancestor k levels above the
+	// parent (still in scope, same sql.Tx). Only blocks at depth >= 2 can have k > 0.
+	From    int      `json:"from,omitempty"`
 	id      int
 	tailDead bool // enumeration only: the part after the children can never run
 }
@@ -72,6 +76,9 @@ func (b *Block) render(sb *strings.Builder, root bool) {
 		sb.WriteString("+" + actName[b.Act] + ";")
 	}
 	sb.WriteString(outName[b.Outcome])
+	if b.From > 0 {
+		sb.WriteString(fmt.Sprintf("@up%d", b.From))
+	}
 	if !root {
 		if b.Swallow {
 			sb.WriteString("~") // failure swallowed by the parent
@@ -82,7 +89,7 @@ func (b *Block) render(sb *strings.Builder, root bool) {
 }
 
 func (b *Block) clone() *Block {
-	n := &Block{Outcome: b.Outcome, Swallow: b.Swallow, Act: b.Act, tailDead: b.tailDead}
+	n := &Block{Outcome: b.Outcome, Swallow: b.Swallow, Act: b.Act, From: b.From, tailDead: b.tailDead}
 	for _, k := range b.Kids {
 		n.Kids = append(n.Kids, k.clone())
 	}
@@ -223,6 +230,52 @@ func allPrograms(maxBlocks, maxDepth int) (progs []*Block, raw int) {
 	return
 }
 
+// withAncestorHandles returns every variant of the programs in which at least
+// one nested block is opened from an ancestor's handle instead of its parent's.
+func withAncestorHandles(progs []*Block, maxBlocks int) []*Block {
+	var out []*Block
+	for _, p := range progs {
+		if p.size() > maxBlocks || p.depth() < 3 {
+			continue
+		}
+		c := p.clone()
+		type nd struct {
+			b     *Block
+			depth int
+		}
+		var deep []nd
+		var walk func(b *Block, d int)
+		walk = func(b *Block, d int) {
+			if d >= 2 {
+				deep = append(deep, nd{b, d})
+			}
+			for _, k := range b.Kids {
+				walk(k, d+1)
+			}
+		}
+		walk(c, 0)
+		var rec func(i int, any bool)
+		rec = func(i int, any bool) {
+			if i == len(deep) {
+				if any {
+					v := c.clone()
+					id := 0
+					v.number(&id)
+					out = append(out, v)
+				}
+				return
+			}
+			for f := 0; f < deep[i].depth; f++ {
+				deep[i].b.From = f
+				rec(i+1, any || f > 0)
+			}
+			deep[i].b.From = 0
+		}
+		rec(0, false)
+	}
+	return out
+}
+
 // withActions returns, for every program of at most maxBlocks blocks, the
 // variants in which exactly one block (whose tail can run) carries one of the
 // extra actions.
@@ -315,6 +368,7 @@ type runner struct {
 	noNested bool
 	scope    string // "all" or "savepoint": which driver calls are fault points
 	der      int    // handle derivation used by every block
+	txs      []*gorm.DB // the tx handles of the blocks being executed, outermost first
 	active   bool
 	inj      []string
 	where    string
@@ -424,6 +478,19 @@ func (r *runner) read(tx *gorm.DB, b *Block, n int) error {
 	if !sameKeys(got, r.m.cur) {
 		r.fail("read inside block differs from reference", "%s: read %s, reference %s", r.where, keyList(got), keyList(r.m.cur))
 	}
+	// the same through Row() (QueryRowContext), without fault injection
+	act := r.active
+	r.active = false
+	cnt, rerr, pv, panicked := rowCount(tx)
+	r.active = act
+	switch {
+	case panicked:
+		r.fail("unexpected panic", "%s: Row() read panicked: %v", r.where, pv)
+	case rerr != nil:
+		r.fail("read failed without fault", "%s: Row() read returned %v", r.where, rerr)
+	case cnt != len(r.m.cur):
+		r.fail("read inside block differs from reference", "%s: Row() read counts %d rows, reference %s", r.where, cnt, keyList(r.m.cur))
+	}
 	r.tracef("B%d read", b.id)
 	return nil
 }
@@ -433,11 +500,19 @@ func (r *runner) body(b *Block, tx *gorm.DB) error {
 	// h: the handle the block's statements go through; nested Transaction
 	// calls and the actions on "the block's own handle" stay on tx
 	h := derive(tx, r.der)
+	r.txs = append(r.txs, tx)
+	defer func(n int) { r.txs = r.txs[:n] }(len(r.txs) - 1)
 	if err := r.write(h, b, "a"); err != nil {
 		return err
 	}
 	for i, k := range b.Kids {
-		st := r.callTx(tx, k, false)
+		from := tx
+		if k.From > 0 && k.From < len(r.txs) {
+			// an ancestor's handle that is still in scope: same transaction
+			from = r.txs[len(r.txs)-1-k.From]
+			r.logf("   B%d is opened from the tx of the block %d level(s) above its parent", k.id, k.From)
+		}
+		st := r.callTx(from, k, false)
 		if st.panicked {
 			if !k.Swallow {
 				panic(st.pv)
@@ -514,7 +589,8 @@ func (r *runner) action(tx, h *gorm.DB, b *Block) error {
 			return err
 		}
 		r.where = fmt.Sprintf("B%d.RollbackTo(%s)", b.id, name)
-		if err := tx.RollbackTo(name).Error; err != nil {
+		// through the statement handle: another handle of the same transaction
+		if err := h.RollbackTo(name).Error; err != nil {
 			r.fail("manual RollbackTo failed", "%s: %v", r.where, err)
 			r.handleErr[b.id] = err
 		}
@@ -707,6 +783,9 @@ func execTree(c *TreeCase, x *mc.Exec) (o *treeObs) {
 		o.Outcome = "nil"
 	}
 	o.Final = copyKeys(r.m.cur)
+	if fc := foreignConn(env.Rec.Events()); fc != "" {
+		r.fail("statement outside the transaction's connection", "%s", fc)
+	}
 	leaks := env.Leaks()
 	if leaks != "" {
 		r.fail("leak", "after the outermost block: %s", leaks)
@@ -785,6 +864,11 @@ func treeTags(c *TreeCase, o *treeObs) []string {
 	}
 	if c.Derive != derNone {
 		tags = append(tags, "derive:"+deriveName[c.Derive])
+	}
+	anc := false
+	c.Prog.preorder(func(b *Block) { anc = anc || b.From > 0 })
+	if anc {
+		tags = append(tags, "child-opened-from-ancestor-handle")
 	}
 	return tags
 }
